@@ -424,7 +424,7 @@ func genC14Router(rng *Rng, sc *Scenario) {
 	g.GenShape(ShapeCfg{
 		MaxRoutes: 6, MaxGlobals: 1, GroupChance: [2]int{1, 4},
 		CacheChance: [2]int{1, 1}, Caps: []int{1, 1, 2, 3, 4, 1000},
-		FallbackOpts: true,
+		FallbackOpts: true, NoRootGroups: true,
 	})
 	sc.Options.StrictSlash = false
 	n := rng.Range(4, 24)
